@@ -110,26 +110,29 @@ def judge(A, n, nb, rc, x, b, singular):
 # the two implementations under test: pure Python and transpiled
 # ---------------------------------------------------------------------------
 def py_impl():
+    # every output buffer is handed over filled with -7.25: a declared
+    # matrix in generated C is not initialised, a helper must write all of
+    # its result
     from pysph.sph.wc import linalg as L
 
     def gj(m, n, nb):
         m = list(m)
-        res = [0.0] * (n * nb)
+        res = [-7.25] * (n * nb)
         rc = L.gj_solve(m, n, nb, res)
         return rc, res
 
     def aug(Af, bf, n, na, nmax):
-        res = [0.0] * ((nmax + na) * n)
+        res = [-7.25] * ((nmax + na) * n)
         L.augmented_matrix(Af, bf, n, na, nmax, res)
         return res[:(n + na) * n]
 
     def mm(a, b, n):
-        res = [0.0] * (n * n)
+        res = [-7.25] * (n * n)
         L.mat_mult(a, b, n, res)
         return res
 
     def mv(a, b, n):
-        res = [0.0] * n
+        res = [-7.25] * n
         L.mat_vec_mult(a, b, n, res)
         return res
 
@@ -183,23 +186,23 @@ def w_dot(double[:] a, double[:] b, long n):
 
     def gj(m, n, nb):
         m = np.array(m, dtype=float)
-        res = np.zeros(max(1, n * nb))
+        res = np.full(max(1, n * nb), -7.25)
         rc = mod.w_gj(m, n, nb, res)
         return rc, res[:n * nb].tolist()
 
     def aug(Af, bf, n, na, nmax):
-        res = np.zeros((nmax + na) * n)
+        res = np.full((nmax + na) * n, -7.25)
         mod.w_aug(np.array(Af, dtype=float), np.array(bf, dtype=float), n,
                   na, nmax, res)
         return res[:(n + na) * n].tolist()
 
     def mm(a, b, n):
-        res = np.zeros(n * n)
+        res = np.full(n * n, -7.25)
         mod.w_mm(np.array(a, dtype=float), np.array(b, dtype=float), n, res)
         return res.tolist()
 
     def mv(a, b, n):
-        res = np.zeros(n)
+        res = np.full(n, -7.25)
         mod.w_mv(np.array(a, dtype=float), np.array(b, dtype=float), n, res)
         return res.tolist()
 
